@@ -51,6 +51,24 @@ def generate(g, tier):
         text, rd = render_ast(prog, g.units(), r.choice(['', ' ']))
         exp = expect_of(prog, rd)
         cases.append(dict(op='compile', src=dict(text=text), meta=dict(family=fam, exp=list(exp[:4]))))
+    # which definition is visible: a FUNC inside a finished block (branch, loop body, function body) is gone afterwards;
+    # inside the block it replaces the outer one only from its own line on and only until the block ends
+    def wrap(kind, inner):
+        if kind == 'if': return [IfChain([(Lit(True), inner)], None, [[]])]
+        if kind == 'repeat': return [Repeat(Lit(r.choice([1, 2])), None, inner)]
+        if kind == 'while': return [While('vw%d' % r.randint(0, 99), Bin('<', Lit(0), Lit(1)), inner + [Break()])]
+        return [FuncDef('wrapf', [], inner), Call('wrapf', [])]
+    for kind in ('if', 'repeat', 'while', 'func'):
+        for shape in range(4):
+            outer = [FuncDef('f', [], [Emit('outer')])]
+            innerdef = FuncDef('f', [], [Emit('inner')])
+            if shape == 0: prog = outer + wrap(kind, [innerdef, Call('f', [])]) + [Call('f', []), Emit('end')]
+            elif shape == 1: prog = wrap(kind, [FuncDef('g', [], [Emit('inner')]), Call('g', [])]) + [Call('g', [])]
+            elif shape == 2: prog = outer + wrap(kind, [Call('f', []), innerdef]) + [Call('f', []), Emit('end')]
+            else: prog = outer + wrap(kind, wrap(r.choice(['if', 'repeat']), [innerdef, Call('f', [])]) + [Call('f', [])]) + [Call('f', [])]
+            text, rd = render_ast(prog, g.units(), '')
+            exp = expect_of(prog, rd)
+            cases.append(dict(op='compile', src=dict(text=text), meta=dict(family='visible', exp=list(exp[:4]))))
     return cases
 
 
